@@ -67,6 +67,38 @@ def same_identifier(t):
     return t
 
 
+
+def alpha_key(t):
+    """canonical text of a term modulo the names of bound iteration variables (two inlinings of one helper give alpha-equivalent terms) and
+    modulo the environment object of closure literals (compared by their syntax)"""
+    import json as _json
+    ids = {}
+
+    def scrub(x):
+        if isinstance(x, dict):
+            return {k: scrub(v) for k, v in x.items() if k != 'line'}
+        if isinstance(x, list):
+            return [scrub(v) for v in x]
+        return x
+
+    def go(x):
+        if isinstance(x, tuple):
+            if x and x[0] == 'closure':
+                return 'closure<' + _json.dumps(scrub(x[1]), sort_keys=True) + '>'
+            if x and x[0] in ('elem', 'pos', 'accvar') and len(x) > 1 and isinstance(x[1], str):
+                return '(' + x[0] + ',' + ids.setdefault(x[1], f'#{len(ids)}') + ',' + ','.join(go(y) for y in x[2:]) + ')'
+            if x and x[0] in ('star', 'fold') and len(x) > 2 and isinstance(x[2], str):
+                src = go(x[1])
+                return '(' + x[0] + ',' + src + ',' + ids.setdefault(x[2], f'#{len(ids)}') + ',' + ','.join(go(y) for y in x[3:]) + ')'
+            return '(' + ','.join(go(y) for y in x) + ')'
+        if isinstance(x, list):
+            return '[' + ','.join(go(y) for y in x) + ']'
+        if isinstance(x, dict):
+            return '{' + ','.join(f'{k}:{go(v)}' for k, v in sorted(x.items())) + '}'
+        return repr(x)
+    return go(t)
+
+
 BOOL_METHODS = ('any', 'all', 'contains', 'contains_key', 'is_some', 'is_none', 'is_empty', 'is_ok', 'is_err', 'starts_with', 'ends_with', 'eq', 'ne',
                 'is_some_and', 'is_none_or', 'insert_bool')
 
@@ -1903,6 +1935,15 @@ class Interp:
             eid = self.fresh('e')
             src, body, conds = self.as_pipeline(recv, eid)
             return ('star', src, eid, ('tuple', [('pos', eid), body]), conds, False)
+        if m == 'zip' and len(args) == 1 and not (recv[0] == 'star' and recv[5]) and not (args[0][0] == 'star' and args[0][5]):
+            # two sequences produced from the same source with the same selection (e.g. a list and a list mapped from it, or two mappings of one
+            # list): position i of both stems from the same element, so the pairs are one iteration with a pair as body
+            eid = self.fresh('e')
+            sx, bx, cx = self.as_pipeline(recv, eid)
+            sy, by, cy = self.as_pipeline(args[0], eid)
+            if alpha_key((sx, cx)) == alpha_key((sy, self.subst_elem(cy, eid, ('elem', eid, sx)))):
+                by = self.subst_elem(by, eid, ('elem', eid, sx))
+                return ('star', sx, eid, ('tuple', [bx, by]), cx, False)
         if m in ('keys', 'values', 'rev', 'skip', 'take', 'step_by', 'chain', 'zip', 'last', 'first', 'next', 'next_back', 'nth', 'max', 'min', 'count', 'len',
                  'is_empty', 'sum', 'split_first', 'get', 'contains', 'contains_key', 'to_string', 'to_uppercase', 'to_lowercase', 'to_snake', 'to_camel',
                  'union', 'parse', 'eq', 'entry', 'or_insert', 'or_insert_with', 'or_default', 'size', 'to_ctx', 'update', 'trim', 'replace',
